@@ -800,6 +800,7 @@ static void op_ctr_wait (op_t *o) {
 
 /* ---- once ---- */
 static int once_cur_obj;      /* argument for the no-arg variants */
+static void once_farg (void *v);
 static void once_body (int oi) {
 	int i;
 	OM[oi].runs++;
@@ -809,6 +810,15 @@ static void once_body (int oi) {
 		nsync_mu_lock (W.mu[0]);
 		nsim_point ();
 		nsync_mu_unlock (W.mu[0]);
+	}
+	if (oi == 0 && S.p[2] > 0 && S.p[2] < S.nonce) {
+		/* lazy initialisation that depends on another lazily initialised object: the function of once0 calls
+		   nsync_run_once* on another nsync_once (once1 shares once0's internal lock, once2 does not) */
+		int inner = S.p[2];
+		if (S.p[3]) nsync_run_once_arg_spin (W.once[inner], &once_farg, (void *) (intptr_t) inner);
+		else nsync_run_once_arg (W.once[inner], &once_farg, (void *) (intptr_t) inner);
+		if (!OM[inner].done) VIOL ("C07", "once-returned-early", "a nested call on once%d returned before the once function completed (runs=%d)", inner, OM[inner].runs);
+		client_rd (&W.payload[32 + inner]);
 	}
 	client_wr (&W.payload[32 + oi]);
 	W.payload[32 + oi] = 1;
@@ -925,6 +935,11 @@ static void thread_body (void *arg) {
 
 /* ------------------------------------------------------------------------------------------ */
 /* world setup */
+/* COUNTER family with S.p[6]: the counter starts 2^31 higher and one thread takes that stake away in a single add(INT32_MIN),
+   so that waits and adds also run while the value does not fit a signed 32-bit integer */
+static uint32_t ctr_initial (int c) {
+	return (uint32_t) S.ctr_init[c] + ((S.family == FAM_COUNTER && S.p[6]) ? 0x80000000u : 0u);
+}
 static void harness_state_reset (void);
 static void world_init (void) {
 	int i, t, j, w;
@@ -984,14 +999,14 @@ static void world_init (void) {
 	for (i = 0; i < S.nctr; i++) {
 		int fails_before = nsim_alloc_failures ();
 		nsim_op_begin ("nsync_counter_new");
-		W.ctr[i] = nsync_counter_new ((uint32_t) S.ctr_init[i]);
+		W.ctr[i] = nsync_counter_new (ctr_initial (i));
 		nsim_op_end ();
 		if (nsim_alloc_failures () != fails_before) {
 			nsim_probe (PR_ALLOC_FAILED);
 			if (W.ctr[i] != NULL) VIOL ("C19", "ctor-not-null", "nsync_counter_new returned non-NULL although its allocation failed");
 		} else if (W.ctr[i] == NULL) VIOL ("C19", "ctor-null", "nsync_counter_new returned NULL although no allocation failed");
-		CM[i].value = S.ctr_init[i];
-		if (S.ctr_init[i] == 0) { CM[i].zero_step = 0; CM[i].zero_ns = nsim_start_ns (); }
+		CM[i].value = (int64_t) ctr_initial (i);
+		if (ctr_initial (i) == 0) { CM[i].zero_step = 0; CM[i].zero_ns = nsim_start_ns (); }
 	}
 }
 
